@@ -1,4 +1,4 @@
-import KafVerif.Lemmas.GroupFns
+import KafVerif.Lemmas.GroupEffect
 /-!
 C43 — Group members expire exactly when their session lapses.
 
@@ -245,6 +245,27 @@ theorem _root_.KafVerif.C43.cleanup_rebalances (st : Group) (now : Nat) (hne : s
             have := (dropMembers_changed st (fun m => m.joinGen != st.gen)).mpr ⟨e, he, by simpa using hx.2⟩
             rw [hf2] at this; cases this
     · rw [hkept hx] at h; cases h; rfl
+
+/-- **C43 (the cleanup pass, in every reachable state).** For every history `ops` and every group
+loaded in the coordinator after it, one pass of `cleanupGroups` leaves exactly `cleanupOutcome` of
+that group (deleted / rebalanced / unchanged) — so the group-level theorems below speak about the
+real pass over the whole table. -/
+theorem _root_.KafVerif.C43.cleanup_pass (ops : List Op) (g : Nat) (st : Group)
+    (h : lookup (run init ops).groups g = some st) :
+    lookup (step (run init ops) .cleanup).1.groups g = (cleanupOutcome st (run init ops).clock).group? := by
+  simp only [step, stepV]
+  rw [cleanup_lookup _ (sorted_run ops), h]
+
+/-- **C43 (no early expiry, reachable states).** After any history: a member whose last accepted
+contact is within its session timeout and which is not a lagger past the rebalance deadline is still
+a member of its (still loaded) group after the cleanup pass. -/
+theorem _root_.KafVerif.C43.no_early_expiry_pass (ops : List Op) (g : Nat) (st : Group) (e : Nat × Member)
+    (h : lookup (run init ops).groups g = some st) (he : e ∈ st.members)
+    (hlive : (run init ops).clock - e.2.lastHb ≤ sessionOf e.2)
+    (hjoined : st.deadline = 0 ∨ (run init ops).clock < st.deadline ∨ e.2.joinGen = st.gen) :
+    ∃ st', lookup (step (run init ops) .cleanup).1.groups g = some st' ∧ ∃ e' ∈ st'.members, e'.1 = e.1 ∧ e'.2.lastHb = e.2.lastHb := by
+  obtain ⟨st', ho, hm⟩ := KafVerif.C43.no_early_expiry st _ e he hlive hjoined
+  exact ⟨st', by rw [KafVerif.C43.cleanup_pass ops g st h]; exact ho, hm⟩
 
 /-- **C43 (every accepted heartbeat refreshes the session).** A heartbeat that is answered NONE or
 REBALANCE_IN_PROGRESS (i.e. accepted as coming from a member of the current generation — also while
